@@ -55,7 +55,10 @@ def run(tier, seed, replay):
         run.add_tlc(vs)
         for (line, fl) in vs.fails:
             for cl in fl["clauses"]:
-                if cl.startswith("tilesjson") or cl == "dropped_connection":
+                is_tj = fl["q"]["z"]["txt"] == "tiles.json"
+                if cl == "tilesjson_format":
+                    run.observation("tilesjson_format", {"target": fl["target"]})      # a versatiles extension, not named by C17
+                elif cl.startswith("tilesjson") or (cl == "dropped_connection" and is_tj):
                     run.failure({"clause": cl, "kind": "tilesjson", "fmt": fl["q"]["src"].get("fmt", ""), "case": fl})
         run.evaluations += len(seen)
         run.extra_served = len(seen)
